@@ -12,6 +12,10 @@
      - the callee classified LogAppend reaches only the log writes of wal.flush and no data write;
      - an INLINED callee (its body is read by the translator) reaches nothing but those known sites;
      - every write site in the package lies in a function with the matching class.
+     - only INLINED callees (lockShared, unlockShared, lockExclusive, unlockExclusive and what calls them:
+       StartTxn, EndTxn, flushPages, ...) can reach an operation on the reader/writer lock fileStore.mtx:
+       a callee whose body the translator does not read must not lock or unlock anything (a second RLock
+       inside a statement deadlocks against a waiting flusher);
    A handle that escapes (an alias of fileStore.file / wal.reader) counts as a write site of the
    function it escapes in, so none of the above can reach it either. *)
 From Coq Require Import List Bool String.
@@ -47,18 +51,18 @@ Definition read_only_methods : list string := ["Read"; "ReadAt"; "Close"; "Stat"
 Definition reach_table := list (string * list string).
 
 (* one classified callee *)
-Definition class_ok (rd rl : reach_table) (fc : string * string) : bool :=
+Definition class_ok (rd rl rk : reach_table) (fc : string * string) : bool :=
   let (f, c) := fc in
   if mem c lock_classes then true        (* methods of sync.RWMutex, not functions of the package *)
-  else match lookup f rd, lookup f rl with
-       | Some d, Some l =>
-           if mem c silent_classes then is_nil d && is_nil l
-           else if String.eqb c "PageWrite" then list_eqb d [page_write_site] && is_nil l
-           else if String.eqb c "HeaderWrite" then list_eqb d [header_write_site] && is_nil l
-           else if String.eqb c "LogAppend" then is_nil d && negb (is_nil l) && forallb (fun s => mem s log_write_sites) l
+  else match lookup f rd, lookup f rl, lookup f rk with
+       | Some d, Some l, Some k =>
+           if mem c silent_classes then is_nil d && is_nil l && is_nil k
+           else if String.eqb c "PageWrite" then list_eqb d [page_write_site] && is_nil l && is_nil k
+           else if String.eqb c "HeaderWrite" then list_eqb d [header_write_site] && is_nil l && is_nil k
+           else if String.eqb c "LogAppend" then is_nil d && negb (is_nil l) && forallb (fun s => mem s log_write_sites) l && is_nil k
            else if String.eqb c "inlined" then forallb (fun s => mem s known_sites) (d ++ l)
            else false
-       | _, _ => false                     (* a classified name that is not a function of the package *)
+       | _, _, _ => false                  (* a classified name that is not a function of the package *)
        end.
 
 (* one use of a file handle *)
@@ -70,10 +74,11 @@ Definition site_ok (cls : list (string * string)) (s : string * string * string)
            if String.eqb t "data" then
              (String.eqb c "PageWrite" && String.eqb (f ++ "/" ++ m) page_write_site) ||
              (String.eqb c "HeaderWrite" && String.eqb (f ++ "/" ++ m) header_write_site)
+           else if String.eqb t "lock" then String.eqb c "inlined"
            else String.eqb c "LogAppend" && mem (f ++ "/" ++ m) log_write_sites
        | None => false
        end.
 
-Definition io_classification_ok (sites : list (string * string * string)) (rd rl : reach_table)
+Definition io_classification_ok (sites : list (string * string * string)) (rd rl rk : reach_table)
                                 (cls : list (string * string)) : bool :=
-  forallb (class_ok rd rl) cls && forallb (site_ok cls) sites.
+  forallb (class_ok rd rl rk) cls && forallb (site_ok cls) sites.
